@@ -62,6 +62,8 @@ type Run struct {
 	Assumptions []string
 	exhaustive  int32 // 1 = yes
 	caps        []string
+	wdGen       int
+	finished    bool
 	viols       map[string]*Violation
 	harnessErrs []string
 
@@ -91,7 +93,48 @@ func (r *Run) Quick() bool { return r.Tier != "thorough" }
 
 // SetBudget sets the internal deadline.  Hitting it never fails a check: the
 // run ends with exhaustive:false and reports what was covered.
-func (r *Run) SetBudget(d time.Duration) { r.Deadline = r.Start.Add(d) }
+func (r *Run) SetBudget(d time.Duration) {
+	r.Deadline = r.Start.Add(d)
+	r.armWatchdog()
+}
+
+// armWatchdog: explorers poll Expired() and return soon after the deadline.  A run that has still not
+// finished long after it (a goroutine of the code under test that never returns, a wait the harness
+// did not bound) must not hang the registered command: the run is ended from here with what it has
+// (exhaustive:false, the cap says why); violations reported so far still decide the exit code.
+func (r *Run) armWatchdog() {
+	r.mu.Lock()
+	gen := r.wdGen + 1
+	r.wdGen = gen
+	r.mu.Unlock()
+	grace := r.Deadline.Sub(r.Start) / 2
+	if grace < 3*time.Minute {
+		grace = 3 * time.Minute
+	}
+	go func() {
+		for {
+			// checks may move r.Deadline later (time spent in a part with its own cap) or clear it
+			d := r.Deadline
+			if d.IsZero() {
+				return
+			}
+			if at := d.Add(grace); time.Now().Before(at) {
+				time.Sleep(time.Until(at) + time.Second)
+				continue
+			}
+			break
+		}
+		r.mu.Lock()
+		stale := r.wdGen != gen || r.finished
+		r.mu.Unlock()
+		if stale {
+			return
+		}
+		r.Cap(fmt.Sprintf("watchdog: the explorer had not returned %s after its deadline; run ended with what was covered", grace))
+		fmt.Fprintln(os.Stderr, "WATCHDOG: run ended after its deadline + grace")
+		os.Exit(r.Finish())
+	}()
+}
 
 // Expired reports whether the internal deadline passed (and records the cap).
 func (r *Run) Expired() bool {
@@ -258,6 +301,9 @@ func (r *Run) loadFindings() []Finding {
 // Finish writes the evidence file and replay files, prints the protocol lines
 // and returns the process exit code.
 func (r *Run) Finish() int {
+	r.mu.Lock()
+	r.finished = true
+	r.mu.Unlock()
 	findings := r.loadFindings()
 	var sigs []string
 	for s := range r.viols {
